@@ -2048,3 +2048,146 @@ Section Isolation.
       destruct Hq as [Hq| ->]; [apply NoA_okv_fresh; exact Hq|]. apply Hr. apply Ho.
   Qed.
 End Isolation.
+
+(* ------------------------------------------------------------------ *)
+(** * do_not_copy attributes are carried by identity *)
+Lemma bind_inv {T U} (m : M T) (k : T -> M U) s r s' :
+  bind m k s = (Ok r, s') -> exists a s1, m s = (Ok a, s1) /\ k a s1 = (Ok r, s').
+Proof.
+  unfold bind. destruct (m s) as [[a|e] s1]; intro H; [|discriminate]. eauto.
+Qed.
+
+Section DncIdentity.
+  Variable ct : ctable.
+  Hypothesis no_dnc : forall c k, lookup_cls ct c = Some k -> c_dnc k = false.
+
+  (* deepcopy writes only cells it allocates, whatever the memo *)
+  Lemma dc_frame_any fuel : forall b v memo, framed b (dc ct fuel v memo) (fun _ => True).
+  Proof.
+    induction fuel as [|f IH]; intros b v memo; simpl; [apply framed_fail|].
+    destruct v; try (now fret).
+    destruct (assoc l memo); [now fret|].
+    fbind; [apply framed_read|]. intros o _. destruct o as [xs|kvs|xs|c d].
+    - fbind; [apply framed_alloc|]. intros l' Hl'.
+      fbindT; [|intros; now fret].
+      apply framed_foldM with (P := fun _ => True); auto.
+      intros m x _ _. fbindT; [apply IH|]. intros r _.
+      fbind; [apply framed_read|]. intros o' _. destruct o'; try apply framed_fail.
+      fbind; [apply framed_write; exact Hl'|]. intros; now fret.
+    - fbind; [apply framed_alloc|]. intros l' Hl'.
+      fbindT; [|intros; now fret].
+      apply framed_foldM with (P := fun _ => True); auto.
+      intros m p _ _. fbindT; [apply IH|]. intros rk _. fbindT; [apply IH|]. intros rv _.
+      fbind; [apply framed_read|]. intros o' _. destruct o'; try apply framed_fail.
+      fbind; [apply framed_write; exact Hl'|]. intros; now fret.
+    - fbindT.
+      + apply framed_foldM with (P := fun _ => True); auto.
+        intros acc x _ _. fbindT; [apply IH|]. intros; now fret.
+      + intros r _. fbind; [apply framed_alloc|]. intros; now fret.
+    - destruct (lookup_cls ct c) as [k|] eqn:Ek; [|apply framed_fail].
+      rewrite (no_dnc c k Ek).
+      fbind; [apply framed_alloc|]. intros new Hnew.
+      fbindT.
+      + apply framed_foldM with (P := fun _ => True); auto.
+        intros m [a x] _ _. fbindT.
+        * destruct (lookup_attr k a) as [sp|]; [destruct (a_dnc sp); [now fret|]|];
+            (destruct (val_is_scalar x); [now fret|apply IH]).
+        * intros r _. fbind; [apply framed_read|]. intros o' _. destruct o'; try apply framed_fail.
+          fbind; [apply framed_write; exact Hnew|]. intros; now fret.
+      + intros memo' _. fbindT; [|intros; now fret].
+        destruct (c_post_copy k); [|now fret].
+        fbindT; [eapply framed_weaken; [apply framed_apply_fn|auto]|intros; now fret].
+  Qed.
+
+  Variable k : cls.
+  (* the copy keeps the attribute names in order; do_not_copy attributes keep their value *)
+  Definition carried (p p' : aid * val) : Prop :=
+    fst p' = fst p /\ forall sp, lookup_attr k (fst p) = Some sp -> a_dnc sp = true -> snd p' = snd p.
+
+  Variable c : cid.
+  Variable f : nat.
+  Variable new : loc.
+
+  Let F := (fun (m : memo_t) (p : aid * val) =>
+              let '(a, x) := p in
+              r <- (match lookup_attr k a with
+                    | Some sp => if a_dnc sp then ret (x, m)
+                                 else if val_is_scalar x then ret (x, m) else dc ct f x m
+                    | None => if val_is_scalar x then ret (x, m) else dc ct f x m
+                    end) ;;
+              o' <- read new ;;
+              match o' with
+              | OInst c' d' => write new (OInst c' (d' ++ [(a, fst r)])) ;;; ret (snd r)
+              | _ => fail RuntimeErr end).
+
+  Lemma dc_fold_carried : forall d done memo s memo' s',
+    nth_error (heap s) new = Some (OInst c done) ->
+    foldM F d memo s = (Ok memo', s') ->
+    exists d', nth_error (heap s') new = Some (OInst c (done ++ d')) /\ Forall2 carried d d'.
+  Proof.
+    induction d as [|[a x] d IH]; intros done memo s memo' s' Hn Hrun; simpl in Hrun.
+    - inversion Hrun; subst. exists []. rewrite app_nil_r. split; auto.
+    - apply bind_inv in Hrun. destruct Hrun as (m1 & s1 & H1 & H2).
+      unfold F in H1 at 1. apply bind_inv in H1. destruct H1 as (r & s0 & Hr & H1).
+      assert (Hn0 : nth_error (heap s0) new = Some (OInst c done) /\
+                    (forall sp, lookup_attr k a = Some sp -> a_dnc sp = true -> fst r = x)).
+      { assert (Hlt : new < length (heap s)) by (apply nth_error_Some; congruence).
+        assert (Hdc : forall mm, dc ct f x mm s = (Ok r, s0) -> nth_error (heap s0) new = Some (OInst c done)).
+        { intros mm E. destruct (dc_frame_any f (S new) x mm s Hlt) as [[_ Fr] _]. rewrite E in Fr. simpl in Fr.
+          rewrite Fr by lia. exact Hn. }
+        destruct (lookup_attr k a) as [sp|] eqn:Ea.
+        - destruct (a_dnc sp) eqn:Ed.
+          + inversion Hr; subst. split; auto.
+          + split; [|intros sp' E; inversion E; subst; congruence].
+            destruct (val_is_scalar x); [inversion Hr; subst; auto|eapply Hdc; eauto].
+        - split; [|intros sp' E; discriminate].
+          destruct (val_is_scalar x); [inversion Hr; subst; auto|eapply Hdc; eauto]. }
+      destruct Hn0 as [Hn0 Hdnc].
+      apply bind_inv in H1. destruct H1 as (o' & s0' & Hrd & H1).
+      unfold read in Hrd. rewrite Hn0 in Hrd. inversion Hrd; subst o' s0'.
+      apply bind_inv in H1. destruct H1 as (u & s1' & Hw & H1). inversion H1; subst m1 s1'.
+      unfold write in Hw. destruct (new <? length (heap s0)) eqn:Elt; [|discriminate].
+      inversion Hw; subst s1. clear Hw.
+      assert (Hn1 : nth_error (set_nth new (OInst c (done ++ [(a, fst r)])) (heap s0)) new
+                    = Some (OInst c (done ++ [(a, fst r)]))).
+      { apply Nat.ltb_lt in Elt. clear -Elt. revert new Elt.
+        induction (heap s0); intros [|n] E; simpl in *; try lia; auto. apply IHl. lia. }
+      destruct (IH (done ++ [(a, fst r)]) (snd r) _ memo' s' Hn1 H2) as (d' & Hd' & Hc).
+      exists ((a, fst r) :: d'). split.
+      + rewrite <- app_assoc in Hd'. exact Hd'.
+      + constructor; auto. split; simpl; auto. intros sp Hsp Hd. symmetry. eapply Hdnc; eauto.
+  Qed.
+End DncIdentity.
+
+Theorem deepcopy_carries_dnc ct :
+  (forall c k, lookup_cls ct c = Some k -> c_dnc k = false) ->
+  forall s l c d k r' s',
+    nth_error (heap s) l = Some (OInst c d) -> lookup_cls ct c = Some k ->
+    deepcopy ct (VRef l) s = (Ok (VRef r'), s') ->
+    exists d', nth_error (heap s') r' = Some (OInst c d') /\ Forall2 (carried k) d d'.
+Proof.
+  intros no_dnc s l c d k r' s' Hn Hk Hrun.
+  unfold deepcopy in Hrun. apply bind_inv in Hrun. destruct Hrun as (r & s1 & Hdc & Hret).
+  inversion Hret; subst s1. clear Hret. unfold FUEL in Hdc.
+  cbn [dc assoc find option_map] in Hdc.
+  apply bind_inv in Hdc. destruct Hdc as (o & s0 & Hrd & Hdc).
+  unfold read in Hrd. rewrite Hn in Hrd. inversion Hrd; subst o s0. clear Hrd.
+  rewrite Hk, (no_dnc c k Hk) in Hdc.
+  apply bind_inv in Hdc. destruct Hdc as (new & s1 & Hal & Hdc).
+  unfold alloc in Hal. inversion Hal; subst new s1. clear Hal.
+  apply bind_inv in Hdc. destruct Hdc as (memo' & s2 & Hfold & Hdc).
+  apply bind_inv in Hdc. destruct Hdc as (u & s3 & Hpc & Hdc). inversion Hdc; subst. clear Hdc.
+  simpl in H0. inversion H0; subst r'. clear H0.
+  assert (Hn1 : nth_error (heap {| heap := heap s ++ [OInst c []]; ncalls := ncalls s; fail_at := fail_at s |})
+                          (length (heap s)) = Some (OInst c [])).
+  { simpl. rewrite nth_error_app2 by lia. rewrite Nat.sub_diag. reflexivity. }
+  destruct (dc_fold_carried ct no_dnc k c _ (length (heap s)) d [] [] _ memo' s2 Hn1 Hfold) as (d' & Hd' & Hc).
+  exists d'. split; [|exact Hc]. simpl in Hd'.
+  assert (Hlt : length (heap s) < length (heap s2)) by (apply nth_error_Some; congruence).
+  assert (Hfr : frame (S (length (heap s))) s2 s').
+  { destruct (c_post_copy k) as [g|].
+    - apply bind_inv in Hpc. destruct Hpc as (v & s4 & Hap & Hr). inversion Hr; subst.
+      destruct (framed_apply_fn (S (length (heap s))) g VNone s2 Hlt) as [Fr _]. rewrite Hap in Fr. exact Fr.
+    - inversion Hpc; subst. apply frame_refl. }
+  destruct Hfr as [_ Fr]. rewrite Fr by lia. exact Hd'.
+Qed.
